@@ -836,12 +836,166 @@ def lean_files(res):
     return out
 
 
+# ------------------------------------------------------------------ witnesses / examples (generated theorems)
+
+class _Min:
+    """smallest conforming trees, as Lean `Tree` terms"""
+
+    def __init__(self, res):
+        self.res = res
+        self.sc = res.schema
+        INF = 10 ** 9
+        cost = {k: INF for k in self.sc.kinds}
+        changed = True
+        while changed:
+            changed = False
+            for k in self.sc.kinds:
+                c = 1 + sum(self._shape_cost(ft, cost) for _, ft in self.sc.structs[k]["fields"])
+                if c < cost[k]:
+                    cost[k] = c
+                    changed = True
+        self.cost = cost
+
+    def _shape_cost(self, t, cost):
+        tag, x = t
+        if tag in ("leaf", "vec", "opt"):
+            return 1
+        if tag == "box":
+            return self._shape_cost(x, cost)
+        return min(cost[u] for u in kinds_under(self.sc, x))
+
+    def rng(self, k):
+        return "(some (0, 1))" if self.sc.structs[k]["range"] == 1 else "none"
+
+    def node(self, k, override=None):
+        override = override or {}
+        fs = []
+        for i, (_, ft) in enumerate(self.sc.structs[k]["fields"]):
+            fs.append(override[i] if i in override else self.shape(ft))
+        return f"(.node {self.sc.kind_id[k]} {self.rng(k)} [{', '.join(fs)}])"
+
+    def shape(self, t):
+        tag, x = t
+        if tag == "leaf":
+            return "(.leaf [])"
+        if tag == "opt":
+            return ".none"
+        if tag == "vec":
+            return "(.list [])"
+        if tag == "box":
+            return self.shape(x)
+        best = min(kinds_under(self.sc, x), key=lambda u: self.cost[u])
+        return self.node(best)
+
+    def wrap(self, t, inner):
+        """value of a field of type t holding exactly the node term `inner`"""
+        tag, x = t
+        if tag == "node":
+            return inner
+        if tag == "box":
+            return self.wrap(x, inner)
+        if tag == "vec":
+            return f"(.list [{self.wrap(x, inner)}])"
+        if tag == "opt":
+            return f"(.some {self.wrap(x, inner)})"
+        _fail("wrap on leaf")
+
+    def carrying_tree(self, k, seen=()):
+        """smallest-effort node of kind k that contains an interesting node strictly inside, or is one"""
+        sc = self.sc
+        if sc.parent.get(k) in INTERESTING_SUMS and seen:
+            return self.node(k)
+        for i, (_, ft) in enumerate(sc.structs[k]["fields"]):
+            tg = child_target(ft)
+            if not tg:
+                continue
+            cands = [u for u in kinds_under(sc, tg) if u in self.res.carry and u not in seen]
+            if not cands:
+                continue
+            cands.sort(key=lambda u: (sc.parent.get(u) not in INTERESTING_SUMS, self.cost[u]))
+            inner = self.carrying_tree(cands[0], seen + (k,))
+            if inner:
+                return self.node(k, {i: self.wrap(ft, inner)})
+        return None
+
+
+def witness_file(res):
+    sc = res.schema
+    mn = _Min(res)
+    L = [HEADER.format(src="ast/src/gen/{generic,fold,visitor}.rs (witness trees and example theorems)"),
+         "import PV.C12.Thm", "namespace PV.C12.Gen", "open PV.C12", ""]
+    theorems = []
+    first = None
+    for K in res.visit_skip:
+        # an interesting parent holding K directly
+        best = None
+        for P in sc.kinds:
+            if sc.parent.get(P) not in INTERESTING_SUMS:
+                continue
+            for i, (_, ft) in enumerate(sc.structs[P]["fields"]):
+                tg = child_target(ft)
+                if tg and K in kinds_under(sc, tg):
+                    if best is None or mn.cost[P] < mn.cost[best[0]]:
+                        best = (P, i, ft)
+        inner = mn.carrying_tree(K, ("root",))
+        if best is None or inner is None:
+            _fail(f"no witness tree for skipped kind {K}")
+        P, i, ft = best
+        w = mn.node(P, {i: mn.wrap(ft, inner)})
+        name = "visitWitness_" + K
+        L.append(f"/-- a {P} node holding a {K} node that contains a stmt/expr/pattern/excepthandler node -/")
+        L.append(f"def {name} : Tree :=\n  {w[1:-1]}")
+        L.append(f"theorem {name}_conforms : Conforms schema {name} := by decide")
+        L.append(f"/-- the default Visitor does not reach what lies below the {K} node -/")
+        L.append(f"theorem visit_misses_below_{K} :\n    ¬ (interestingEvents schema (visitWith visitProg schema {name})).Perm "
+                 f"(interestingNodes schema {name}) := by decide")
+        L.append("")
+        theorems += [f"PV.C12.Gen.{name}_conforms", f"PV.C12.Gen.visit_misses_below_{K}"]
+        if first is None:
+            first = (name, K)
+    if first:
+        name, K = first
+        L.append("/-- the full Visitor statement is false for the code as it is -/")
+        L.append("theorem visit_complete_fails : ¬ visit_complete_full := by")
+        L.append("  intro h")
+        L.append(f"  exact visit_misses_below_{K} (h _ _ _ {name}_conforms (by decide))")
+        theorems.append("PV.C12.Gen.visit_complete_fails")
+    elif not res.visit_problems:
+        L.append("/-- the full Visitor statement holds for the regenerated visitor program -/")
+        L.append("theorem visit_complete_holds : visit_complete_full := visit_complete_gen rfl")
+        theorems.append("PV.C12.Gen.visit_complete_holds")
+    # non-vacuity example: a module with one statement that has something inside
+    stmt = None
+    for P in sc.kinds:
+        if sc.parent.get(P) == "Stmt":
+            t = mn.carrying_tree(P, ("root",))
+            if t and (stmt is None or len(t) < len(stmt)):
+                stmt = t
+    mod = [k for k in sc.kinds if sc.parent.get(k) == "Mod"]
+    L.append("")
+    L.append("/-- non-vacuity: a conforming tree on which the hypotheses of the generic theorems hold -/")
+    if mod and stmt:
+        M = mod[0]
+        fld = [i for i, (_, ft) in enumerate(sc.structs[M]["fields"]) if child_target(ft) == "Stmt"]
+        ex = mn.node(M, {fld[0]: mn.wrap(sc.structs[M]["fields"][fld[0]][1], stmt)}) if fld else stmt
+    else:
+        ex = stmt or mn.node(sc.kinds[0])
+    L.append(f"def exTree : Tree :=\n  {ex[1:-1]}")
+    L.append("example : Conforms schema exTree := by decide")
+    L.append("example : (foldWith foldProg id exTree).1.beq exTree = true := by decide")
+    L.append("example : mapCalls (foldWith foldProg id exTree).2 ≠ [] := by decide")
+    L.append("end PV.C12.Gen")
+    return "\n".join(L) + "\n", theorems
+
+
 def emit(res, lean_dir=None):
     lean_dir = lean_dir or core.LEAN
     d = os.path.join(lean_dir, "PV", "Gen")
     os.makedirs(d, exist_ok=True)
     changed = []
-    for name, content in lean_files(res).items():
+    files = lean_files(res)
+    files["C12Witness.lean"], res.witness_theorems = witness_file(res)
+    for name, content in files.items():
         p = os.path.join(d, name)
         old = None
         if os.path.exists(p):
